@@ -19,6 +19,25 @@ def verify_sanitiser(facts, entry):
     fn = facts.fns.get(key)
     if fn is None:
         return False, "function %s not found" % key
+    if entry.get("compose"):
+        # body = inner(param).replace('c', "cc")...
+        inner = entry["compose"]
+        t = rx.tail_expr(fn.body)
+        if t is None or len(fn.body["stmts"]) != 1:
+            return False, "%s is not a single expression" % key
+        base, chain = rx.method_chain(t)
+        pname = fn.params[0][0] if fn.params else None
+        ok_base = base["k"] == "call" and base["f"]["k"] == "path" and base["f"]["segs"][-1] == inner.split("::")[-1] and len(base["args"]) == 1 and rx.is_var(base["args"][0], pname)
+        reps = {}
+        for m, a, _ in chain:
+            if m != "replace" or len(a) != 2 or a[0].get("t") not in ("char", "str") or a[1].get("t") != "str":
+                return False, "%s: unexpected step .%s(..)" % (key, m)
+            reps[a[0]["v"]] = a[1]["v"]
+        # the replacement must not re-introduce a character escaped by the inner sanitiser
+        clash = [k for k, v in reps.items() if any(ch in v for ch in ('"', "\\"))]
+        if ok_base and reps == entry["replace"] and not clash:
+            return True, "%s = %s ∘ replace%s" % (key, inner, reps)
+        return False, "%s is not %s(param)%s" % (key, inner, "".join(".replace(%r,%r)" % kv for kv in entry["replace"].items()))
     ms = find_all(fn.body, lambda n: n.get("k") == "match")
     best = None
     for m in ms:
@@ -144,6 +163,8 @@ def run(c, facts, tier):
     good_sani = {}
     for ent in sani["sanitisers"]:
         ok, det = verify_sanitiser(facts, ent)
+        if ok and ent.get("compose") and ent["compose"] not in good_sani:
+            ok, det = False, "%s composes %s, which is not a verified sanitiser" % (ent["fn"], ent["compose"])
         c.ob("C04.sanitiser", ent["fn"], "escapes %s" % sorted(ent["map"]), ok, det)
         if ok:
             good_sani[ent["fn"]] = set(ent["map"].keys())
